@@ -21,8 +21,8 @@ PID = "C17"
 LEVEL = "proof"
 LEAN = ["SaVerif.Props.C17"]
 META = {
-    "text": "Lean theorem lambda_invocation_eq_direct: for ANY history of invocations of a lambda whose closure variables keep their kind (bound literal vs structural), with any user function that is parametric in its literal variables, every invocation through the lambda cache (analysis done once at the first call, cache keyed by code + structural values, bound values re-extracted from the current closure) yields the statement and parameters of the directly built statement for the CURRENT closure values; proved by induction over the history with a cache invariant; the stability hypothesis is necessary (kind_change_counterexample). Tied to sql/lambdas.py by a differential run: lambda-cache hit/miss pattern and extracted bound values per invocation vs model; the property itself is checked on the real code by comparing SQL (values substituted) and rows of every invocation with the directly built statement on SQLite, for 27 lambda templates over random value histories.",
-    "note": "Trusted / not modelled: CPython closure and code-object mechanics, AnalyzedCode bytecode rewriting and PyWrapper attribute tracking are covered by the differential only; the model's parametricity hypothesis (the user function uses literal closure values only as bound values) is an assumption about the generated templates. Known finding: a closure variable whose value is None is rendered as a bound parameter (`col = ?` with NULL) where the directly built statement renders `col IS NULL` — see known_findings.d/C17.json.",
+    "text": "Lean theorem lambda_invocation_eq_direct: for ANY history of invocations of a lambda whose closure variables keep their kind (bound literal vs structural), with any user function that is parametric in its literal variables, every invocation through the lambda cache (analysis done once at the first call, cache keyed by code + structural values, bound values re-extracted from the current closure) yields the statement and parameters of the directly built statement for the CURRENT closure values; proved by induction over the history with a cache invariant; the stability hypothesis is necessary (kind_change_counterexample). Tied to sql/lambdas.py by a differential run: lambda-cache hit/miss pattern and extracted bound values per invocation vs model; the property itself is checked on the real code by comparing SQL (values substituted) and rows of every invocation with the directly built statement on SQLite, for 35 lambda templates over random value histories.",
+    "note": "Trusted / not modelled: CPython closure and code-object mechanics, AnalyzedCode bytecode rewriting and PyWrapper attribute tracking are covered by the differential only; the model's parametricity hypothesis (the user function uses literal closure values only as bound values) is an assumption about the generated templates. Known findings: integer index on a closure sequence raises TypeError at construction; helper functions from one factory (same code, different defaults) share a cache entry; a closure variable whose value is None is rendered as a bound parameter (`col = ?` with NULL) where the directly built statement renders `col IS NULL` — see known_findings.d/C17.json.",
     "technique": "Lean 4 induction over invocation histories with a cache invariant + differential correspondence (hit/miss, extracted values) + direct-construct oracle on SQLite",
     "design_ref": "DESIGN.md §3 C17",
 }
@@ -302,7 +302,140 @@ def t_three_columns(env, v):
     )
 
 
+class Tag(str):
+    """a literal (str) closure value that also carries attributes"""
+
+
+def _tag(s, n, m):
+    tg = Tag(s)
+    tg.n = n
+    tg.m = m
+    return tg
+
+
+def t_direct_and_attr(env, v):
+    # the SAME closure variable used directly as a bound value and through an attribute
+    t = env.fx.t
+    tg = _tag(v["s"], v["a"], v["b"])
+    return (
+        SA.lambda_stmt(lambda: SA.select(t.c.id).where(SA.or_(t.c.s == tg, t.c.x > tg.n)).order_by(t.c.id)),
+        SA.select(t.c.id).where(SA.or_(t.c.s == str(tg), t.c.x > tg.n)).order_by(t.c.id),
+    )
+
+
+def t_two_attrs(env, v):
+    t = env.fx.t
+    tg = _tag(v["s"], v["a"], v["b"])
+    return (
+        SA.lambda_stmt(lambda: SA.select(t.c.id).where(t.c.x > tg.n).where(t.c.y < tg.m).where(t.c.s != tg).order_by(t.c.id)),
+        SA.select(t.c.id).where(t.c.x > tg.n).where(t.c.y < tg.m).where(t.c.s != str(tg)).order_by(t.c.id),
+    )
+
+
+def t_index(env, v):
+    t = env.fx.t
+    pair = (v["a"], v["b"])
+    return (
+        SA.lambda_stmt(lambda: SA.select(t.c.id).where(t.c.x > pair[0]).where(t.c.y < pair[1]).order_by(t.c.id)),
+        SA.select(t.c.id).where(t.c.x > pair[0]).where(t.c.y < pair[1]).order_by(t.c.id),
+    )
+
+
+def t_list_direct_and_index(env, v):
+    t = env.fx.t
+    vals = list(v["vals"]) or [1000]
+    return (
+        SA.lambda_stmt(lambda: SA.select(t.c.id).where(SA.or_(t.c.x.in_(vals), t.c.y > vals[0])).order_by(t.c.id)),
+        SA.select(t.c.id).where(SA.or_(t.c.x.in_(vals), t.c.y > vals[0])).order_by(t.c.id),
+    )
+
+
+def t_dict_index(env, v):
+    t = env.fx.t
+    d = {"lo": v["a"], "hi": v["b"]}
+    return (
+        SA.lambda_stmt(lambda: SA.select(t.c.id).where(t.c.x.between(d["lo"], d["hi"])).order_by(t.c.id)),
+        SA.select(t.c.id).where(t.c.x.between(d["lo"], d["hi"])).order_by(t.c.id),
+    )
+
+
+# helper functions held in the closure ("strategy" functions returning SQL constructs)
+def _crit_x(t):
+    return t.c.x > 1200
+
+
+def _crit_y(t):
+    return t.c.y < 2010
+
+
+def _crit_both(t):
+    return SA.and_(t.c.x > 1100, t.c.y >= 2005)
+
+
+def _ord_x(t):
+    return t.c.x.desc()
+
+
+def _ord_y(t):
+    return t.c.y
+
+
+HELPERS = {"cx": _crit_x, "cy": _crit_y, "cb": _crit_both}
+ORDERS = {"ox": _ord_x, "oy": _ord_y}
+
+
+def t_helper_fn(env, v):
+    t = env.fx.t
+    f = HELPERS[v["fn"]]
+    a = v["a"]
+    return (
+        SA.lambda_stmt(lambda: SA.select(t.c.id).where(f(t)).where(t.c.id > a).order_by(t.c.id)),
+        SA.select(t.c.id).where(f(t)).where(t.c.id > a).order_by(t.c.id),
+    )
+
+
+def t_helper_order(env, v):
+    t = env.fx.t
+    f, g = HELPERS[v["fn"]], ORDERS[v["ord"]]
+    st = SA.lambda_stmt(lambda: SA.select(t.c.id, t.c.x, t.c.y).where(f(t)))
+    st += lambda s: s.order_by(g(t), t.c.id)
+    return st, SA.select(t.c.id, t.c.x, t.c.y).where(f(t)).order_by(g(t), t.c.id)
+
+
+def _mk_default_helper(k):
+    def helper(t, k=k):  # same code object for every k, different defaults
+        return t.c.x > k
+
+    return helper
+
+
+def t_helper_defaults(env, v):
+    t = env.fx.t
+    f = _mk_default_helper(v["a"])
+    return (
+        SA.lambda_stmt(lambda: SA.select(t.c.id).where(f(t)).order_by(t.c.id)),
+        SA.select(t.c.id).where(f(t)).order_by(t.c.id),
+    )
+
+
+def t_nested_lambda(env, v):
+    t = env.fx.t
+    a, b = v["a"], v["b"]
+    return (
+        SA.lambda_stmt(lambda: SA.select(t.c.id).where(lambda: t.c.x > a).where(t.c.y < b).order_by(t.c.id)),
+        SA.select(t.c.id).where(t.c.x > a).where(t.c.y < b).order_by(t.c.id),
+    )
+
+
 TEMPLATES = {
+    "direct_and_attr": (t_direct_and_attr, ["s", "a", "b2"]),
+    "two_attrs": (t_two_attrs, ["s", "a", "b2"]),
+    "index": (t_index, ["a", "b2"]),
+    "list_direct_and_index": (t_list_direct_and_index, ["vals"]),
+    "helper_fn": (t_helper_fn, ["fn", "a_small"]),
+    "helper_order": (t_helper_order, ["fn", "ord"]),
+    "helper_defaults": (t_helper_defaults, ["a"]),
+    "nested_lambda": (t_nested_lambda, ["a", "b2"]),
     "closure_expr": (t_closure_expr, ["a"]),
     "closure_expr_str": (t_closure_expr_str, ["s", "b2"]),
     "closure_expr_in": (t_closure_expr_in, ["vals", "a2"]),
@@ -362,6 +495,10 @@ def gen_values(rng, kinds, stable=True):
             v["tab"] = rng.choice(["t", "u"])
         elif k == "n":
             v["n"] = rng.choice(lb.Y_VALUES) if stable else rng.choice([None, rng.choice(lb.Y_VALUES)])
+        elif k == "fn":
+            v["fn"] = rng.choice(["cx", "cy", "cb"])
+        elif k == "ord":
+            v["ord"] = rng.choice(["ox", "oy"])
         elif k == "flag":
             v["flag"] = rng.random() < 0.5
         elif k == "lim":
@@ -421,9 +558,14 @@ def check_history(ctx, env, name, seq, corr=None, record=True):
         try:
             lam, direct = fn(env, v)
         except Exception as ex:
-            # building the lambda itself raised (analysis happens at construction)
+            # building the lambda itself raised (analysis happens at construction); an explicit
+            # InvalidRequestError is the documented refusal of an uncacheable closure, not a stale value
+            if type(ex).__name__ == "InvalidRequestError":
+                if record:
+                    ctx.count("lambda-rejected:" + name)
+                return 0
             nviol += 1
-            ctx.violation(classify(seq, pos), case, "step %d values %r: constructing the lambda statement raises %s: %s" % (pos, v, type(ex).__name__, str(ex)[:200]))
+            ctx.violation(classify(seq, pos, name), case, "step %d values %r: constructing the lambda statement raises %s: %s" % (pos, v, type(ex).__name__, str(ex)[:200]))
             return nviol
         dml = name == "update"
         orm = name == "orm_loader_criteria"
@@ -433,7 +575,7 @@ def check_history(ctx, env, name, seq, corr=None, record=True):
         if key(rl) != key(rd):
             nviol += 1
             ctx.violation(
-                classify(seq, pos),
+                classify(seq, pos, name),
                 case,
                 "step %d values %r: lambda %s | direct %s" % (pos, v, str(key(rl))[:600], str(key(rd))[:600]),
             )
@@ -456,7 +598,15 @@ def check_history(ctx, env, name, seq, corr=None, record=True):
     return nviol
 
 
-def classify(seq, pos):
+KEY_INTIDX = "closure-sequence-integer-index-typeerror"
+KEY_HELPER_STATE = "closure-helper-function-same-code-different-defaults"
+
+
+def classify(seq, pos, name=None):
+    if name in ("index", "list_direct_and_index"):
+        return KEY_INTIDX
+    if name == "helper_defaults":
+        return KEY_HELPER_STATE
     if any(x is None for v in seq[: pos + 1] for x in v.values()):
         return KEY_KIND
     return "c17:lambda-differs-from-direct"
@@ -502,8 +652,8 @@ def run(ctx, deep=False):
 
     warnings.simplefilter("ignore")
     ctx.rule = (
-        "27 lambda templates (lambda_stmt, chained add_criteria incl. conditionally added links, lambda criteria in where(), with_loader_criteria, ORM entities; closure scalars, strings, "
-        "IN lists of varying length incl. empty, columns, tables, module globals, LIMIT) x random histories (length 2..10) of closure values on one engine; "
+        "35 lambda templates (lambda_stmt, chained add_criteria incl. conditionally added links, lambda criteria in where(), with_loader_criteria, ORM entities; closure scalars, strings, "
+        "IN lists of varying length incl. empty, columns, tables, module globals, LIMIT, a literal used directly AND through attributes, integer indexes, helper functions held in the closure (different functions; one factory with different defaults), nested lambdas) x random histories (length 2..10) of closure values on one engine; "
         "90% of histories keep every variable's kind, 10% let a variable alternate between None and a value; a case = one history"
     )
     ctx.trusted += ["CPython closures/code objects and the bytecode rewriting of AnalyzedFunction (differential only)"]
@@ -511,7 +661,7 @@ def run(ctx, deep=False):
     env = Env()
     corr = {"cases": [], "impl": [], "req": []} if ctx.driver_ok() else None
     names = sorted(TEMPLATES)
-    n = 1500 if thorough else 170
+    n = 2500 if thorough else 420
     for i in range(n):
         name = names[i % len(names)] if i < 2 * len(names) else ctx.rng.choice(names)
         kinds = TEMPLATES[name][1]
